@@ -131,6 +131,15 @@ Theorem C03_pure_notrap_total :
 Proof. exact pure_total_eval. Qed.
 Print Assumptions C03_pure_notrap_total.
 
+(* ... in particular it never ends in a runtime error.  The implementation-side test of this
+   statement is the literal-operator family of lib/props/c03.py (every operator x every pair
+   of literal operand kinds the front end accepts, in four contexts). *)
+Theorem C03_pure_total_never_errors :
+  forall P eps n e s er, pure_total e = true ->
+    snd (eval P eps n e s) <> Err er /\ fst (eval P eps n e s) = [].
+Proof. exact pure_total_no_error. Qed.
+Print Assumptions C03_pure_total_never_errors.
+
 (* the wider class the analysis calls PureNoTrap (operators applied to variables): no
    output and no state change, but NOT total — see C03_pure_notrap_not_total below *)
 Theorem C03_pure_notrap_no_effect :
@@ -768,3 +777,14 @@ Example ex_user_call_impure_first_declaration :
      SMake (Some 3) [117] (Some 0) (ECall (EVar [103] None) [] (Some 1));
      SExpr (Some 4) (ECall (EVar sh None) [(ENum (of_bits 4611686018427387904))] None)] [3] []) = ([3], []).
 Proof. vm_compute. reflexivity. Qed.
+
+(* fourth wave (seeded C03-d2): a literal-only tree that lit_ty refuses, e.g. "x" add true
+   (accepted by the static checks, Type mismatch at run time), is in NO class when pruned *)
+Example C03_trapping_literal_tree_is_in_no_class :
+  let p := [SMake (Some 0) [117] (Some 0) (EBin Add (EStr [120]) (EBool true));
+            SExpr (Some 1) (ECall (EVar sh None) [(ENum (of_bits 4611686018427387904))] None)] in
+  lit_ty (EBin Add (EStr [120]) (EBool true)) = None /\
+  run_impl None eps0 20 p = ([], RtErr TypeMis) /\
+  run_impl (Some ([0], [])) eps0 20 p = ([VNum (of_Z 2)], Done) /\
+  v_stmt (plan_ok p [0] []) = [(0, CNoClass)] /\ x_residual (plan_ok4 p [0] []) = ([0], []).
+Proof. vm_compute. repeat split; reflexivity. Qed.
